@@ -31,7 +31,10 @@ class MemoryCache(Cache):
 
     def clear(self):
         with self._lock:
-            self._cache = {}
+            if self.size is not None:
+                self._cache = lrucache(self.size)
+            else:
+                self._cache = {}
 
     def __reduce__(self):
         return self.__class__, (self.size,)
